@@ -16,6 +16,7 @@ BATCHES = {
         ("super", 8, 100, {}),
         ("version", 8, 100, {}),
         ("fault", 8, 100, {}),
+        ("poor", 8, 100, {}),
     ],
     "thorough": [
         ("reward", 60, 120, {}),
@@ -24,6 +25,7 @@ BATCHES = {
         ("super", 80, 160, {}),
         ("version", 80, 160, {}),
         ("fault", 80, 160, {}),
+        ("poor", 80, 160, {}),
         ("pay", 60, 140, {}),
         ("life", 80, 140, {}),
         ("auth", 80, 140, {}),
